@@ -93,6 +93,14 @@ func ErrTag(err error) string {
 		return "wrong-hashes"
 	case "torrent has no name":
 		return "no-name"
+	case "bad file path":
+		return "bad-file-path"
+	case "duplicate file path":
+		return "dup-path"
+	case "file is also a directory":
+		return "file-is-dir"
+	case "bad torrent name":
+		return "bad-name"
 	}
 	return ""
 }
